@@ -56,7 +56,8 @@ def gen_case(rng, tier="quick"):
     big = None
     if kind in ("generic", "uncoupled") and rng.random() < 0.05:
         big = _pick(rng, ["sites", "steps"])
-        n = rng.randrange(8, 13) if big == "sites" else rng.randrange(2, 4)
+        n = rng.randrange(8, 13) if big == "sites" else (
+            2 if kind == "generic" else rng.randrange(2, 4))
     # site dimensions may differ along the chain
     dims = [3 if (n <= 4 and rng.random() < 0.25) else 2 for _ in range(n)]
     if kind in ("two_site", "commuting"):
@@ -65,7 +66,7 @@ def gen_case(rng, tier="quick"):
     d = max(dims)
     steps = rng.randrange(1, 4 if n >= 5 else 5)
     if big == "steps":
-        steps = rng.randrange(20, 45)
+        steps = rng.randrange(20, 80) if n == 2 else rng.randrange(20, 45)
     case = {
         "kind": kind, "n": n, "d": d, "dims": dims, "steps": steps,
         "order": _pick(rng, [1, 2]), "dt": _pick(rng, [0.05, 0.1, 0.2]),
@@ -122,6 +123,10 @@ def gen_case(rng, tier="quick"):
             if tuple(c[:3]) not in seen:
                 seen.add(tuple(c[:3]))
                 ctrl.append(c)
+    if ctrl and rng.random() < 0.3:
+        # the same kick twice in one slot: the two commute, so how stacked
+        # controls are ordered does not matter - both must be applied
+        ctrl.append(list(ctrl[rng.randrange(len(ctrl))]))
     case["controls"] = ctrl
     case["nn_diss"] = rng.random() < 0.4
     case["entry"] = _pick(rng, ["operators", "operators", "liouvillians"])
